@@ -54,8 +54,11 @@ func outOptions(t []string) []gtree.Option {
 	if t[2] == "1" {
 		opts = append(opts, gtree.WithNoUseIterOfSimpleOutput())
 	}
-	opts = append(opts, gtree.WithBranchFormatLastNode(unhex(t[3]), unhex(t[4])))
-	opts = append(opts, gtree.WithBranchFormatIntermedialNode(unhex(t[5]), unhex(t[6])))
+	if t[3] != "D" {
+		// "D D D D": no branch-format option at all (the library's own defaults)
+		opts = append(opts, gtree.WithBranchFormatLastNode(unhex(t[3]), unhex(t[4])))
+		opts = append(opts, gtree.WithBranchFormatIntermedialNode(unhex(t[5]), unhex(t[6])))
+	}
 	if t[7] != "-" {
 		opts = append(opts, gtree.WithFileExtensions(hexlist(t[7])))
 	}
